@@ -28,6 +28,7 @@ type TypeDecl struct {
 	Immutable bool
 	ImmLine   string   // the annotation line as written
 	CtorLines []string // "// @constructor ..." lines as written
+	CtorNames []string // the names on those lines
 	TestOnly  bool
 	PkgOnly   [][]string // one entry per @packageonly line: its list
 	Impl      []string   // "// @implements ..." lines as written
@@ -44,11 +45,13 @@ type TypeDecl struct {
 type Reexport struct {
 	Dep  int
 	Type string
+	Fn   string // GetX<dep qualifier><type>
 }
 
 type PkgDecl struct {
 	Index       int
-	Path, Name  string
+	Path, Name  string // Name is the package clause; several packages of a world may share it
+	Qual        string // unique in the world: qualifier importers use, and part of generated identifiers
 	Dir         string
 	Types       []*TypeDecl
 	FuncTest    bool // F<name>() is @testonly
@@ -56,12 +59,13 @@ type PkgDecl struct {
 	Reexports   []Reexport // GetX<Type>() returning a type of an imported package
 	Imports     []int
 	AliasImport bool // importers write an explicit alias
+	TwinOf      int  // index of the package this one is a structural clone of, or -1
 	Pad         int  // bytes of filler comment at the top of decl.go (moves every position)
 	UsesFirst   bool // use.go is listed (and parsed) before decl.go
 }
 
-func (p *PkgDecl) FuncName() string   { return "F" + p.Name }
-func (p *PkgDecl) AnchorName() string { return "Anchor" + strings.ToUpper(p.Name[:1]) + p.Name[1:] }
+func (p *PkgDecl) FuncName() string   { return "F" + p.Qual }
+func (p *PkgDecl) AnchorName() string { return "Anchor" + strings.ToUpper(p.Qual[:1]) + p.Qual[1:] }
 
 // AllowedUnion returns the union of all @packageonly lists (without the
 // implicit declaring package).
@@ -87,8 +91,11 @@ var dirShapes = []string{"%s", "x-y/%s", "v.1/%s", "deep/er/%s", "pkg%s", "in_te
 var junkPkgs = []string{"nosuch", "github.com/x/y-z.v2", "a/b/c", "util", "x.y/z-w/q_r", "main"}
 
 // Generate draws a world. Draw 0 is always the simplest alternative.
+var ctorFnTaken map[int]map[string]bool
+
 func Generate(t Drawer, opt GenOpt) (*World, *Meta) {
 	d := drw{t}
+	ctorFnTaken = map[int]map[string]bool{}
 	w := &World{Module: "ex.test/w"}
 	m := &Meta{}
 	n := d.rng(opt.MinPkgs, opt.MaxPkgs)
@@ -113,13 +120,27 @@ func Generate(t Drawer, opt GenOpt) (*World, *Meta) {
 
 	letters := "abcdefgh"
 	for i := 0; i < n; i++ {
-		name := string(letters[i])
+		qual := string(letters[i])
+		name := qual
 		shape := dirShapes[0]
 		if d.chance(1, 3) {
 			shape = dirShapes[d.Draw(len(dirShapes))]
 		}
-		dir := fmt.Sprintf(shape, name)
-		pd := &PkgDecl{Index: i, Name: name, Dir: dir, Path: w.Module + "/" + dir}
+		dir := fmt.Sprintf(shape, qual)
+		if i > 0 && d.chance(1, 5) {
+			// same package name as an earlier package, different path: keys that
+			// should be import paths but are names collide here
+			name = m.Decls[d.Draw(i)].Name
+			dir = fmt.Sprintf("twin%d/%s", i, name)
+		}
+		pd := &PkgDecl{Index: i, Name: name, Qual: qual, Dir: dir, Path: w.Module + "/" + dir, TwinOf: -1}
+		if name != qual {
+			for k := 0; k < i; k++ {
+				if m.Decls[k].Name == name && m.Decls[k].TwinOf < 0 {
+					pd.TwinOf = k // "templated" sibling package: same layout, same annotations, other path
+				}
+			}
+		}
 		if strings.HasPrefix(shape, "pkg") || strings.HasSuffix(shape, ".d") {
 			pd.AliasImport = d.chance(1, 2)
 		}
@@ -127,6 +148,13 @@ func Generate(t Drawer, opt GenOpt) (*World, *Meta) {
 			pd.Pad = []int{3000, 30000}[d.Draw(2)]
 		}
 		pd.UsesFirst = d.chance(1, 4)
+		if pd.TwinOf >= 0 {
+			src := m.Decls[pd.TwinOf]
+			pd.Pad, pd.UsesFirst, pd.AliasImport = src.Pad, src.UsesFirst, true
+			pd.Imports = append([]int(nil), src.Imports...)
+			m.Decls = append(m.Decls, pd)
+			continue
+		}
 		// imports: a DAG over earlier packages
 		if !flat && i > 0 {
 			if opt.NeedDepth2 && i <= 2 {
@@ -197,10 +225,42 @@ func genPkgOnly(d drw, m *Meta, self *PkgDecl) [][]string {
 	return out
 }
 
+// cloneDecls gives pd the declaration model of its twin, type names adapted.
+func cloneDecls(m *Meta, pd *PkgDecl) {
+	src := m.Decls[pd.TwinOf]
+	ren := func(s string) string { return strings.ReplaceAll(s, "T"+src.Qual, "T"+pd.Qual) }
+	renAll := func(a []string) []string {
+		var out []string
+		for _, x := range a {
+			out = append(out, ren(x))
+		}
+		return out
+	}
+	for _, t := range src.Types {
+		c := *t
+		c.Name = ren(t.Name)
+		c.CtorLines, c.CtorNames, c.Impl = renAll(t.CtorLines), renAll(t.CtorNames), renAll(t.Impl)
+		pd.Types = append(pd.Types, &c)
+	}
+	pd.FuncTest, pd.FuncPkgOnly = src.FuncTest, src.FuncPkgOnly
+	pd.Reexports = append([]Reexport(nil), src.Reexports...)
+}
+
 func genDecls(d drw, w *World, m *Meta, pd *PkgDecl) {
+	if pd.TwinOf >= 0 {
+		cloneDecls(m, pd)
+		return
+	}
 	nt := d.rng(1, 3)
+	shared := d.chance(1, 2)
+	if shared {
+		nt++
+	}
 	for k := 0; k < nt; k++ {
-		td := &TypeDecl{Name: fmt.Sprintf("T%s%d", pd.Name, k)}
+		td := &TypeDecl{Name: fmt.Sprintf("T%s%d", pd.Qual, k)}
+		if shared && k == nt-1 {
+			td.Name = "Shared" // the same type (and interface) name in many packages of the world
+		}
 		if d.chance(3, 5) {
 			td.Immutable = true
 			td.ImmLine = []string{"// @immutable", "//@immutable", "// @immutable value object", "//   @immutable"}[pickRare(d, 4)]
@@ -234,6 +294,7 @@ func genDecls(d drw, w *World, m *Meta, pd *PkgDecl) {
 					line += ","
 				}
 				td.CtorLines = append(td.CtorLines, line)
+				td.CtorNames = append(td.CtorNames, names...)
 			}
 		}
 		td.TestOnly = d.chance(1, 5)
@@ -248,7 +309,9 @@ func genDecls(d drw, w *World, m *Meta, pd *PkgDecl) {
 		}
 		// @implements
 		if d.chance(1, 3) {
-			switch d.Draw(6) {
+			switch d.Draw(7) {
+			case 6:
+				td.Impl = append(td.Impl, "// @implements &J"+td.Name) // two methods missing: IMPL03 with a list
 			case 0:
 				td.Impl = append(td.Impl, "// @implements &I"+td.Name)
 			case 1:
@@ -266,7 +329,7 @@ func genDecls(d drw, w *World, m *Meta, pd *PkgDecl) {
 						if d.chance(1, 4) {
 							amp = ""
 						}
-						td.Impl = append(td.Impl, fmt.Sprintf("// @implements %s%s.I%s", amp, dep.Name, dep.Types[ref].Name))
+						td.Impl = append(td.Impl, fmt.Sprintf("// @implements %s%s.I%s", amp, dep.Qual, dep.Types[ref].Name))
 					}
 				} else {
 					td.Impl = append(td.Impl, "// @implements &I"+td.Name)
@@ -280,7 +343,8 @@ func genDecls(d drw, w *World, m *Meta, pd *PkgDecl) {
 	for _, j := range pd.Imports {
 		dep := m.Decls[j]
 		if len(dep.Types) > 0 && d.chance(1, 2) {
-			pd.Reexports = append(pd.Reexports, Reexport{Dep: j, Type: dep.Types[d.Draw(len(dep.Types))].Name})
+			tn := dep.Types[d.Draw(len(dep.Types))].Name
+			pd.Reexports = append(pd.Reexports, Reexport{Dep: j, Type: tn, Fn: "GetX" + dep.Qual + tn})
 		}
 	}
 }
@@ -324,8 +388,8 @@ func importLines(s *src, m *Meta, deps []int) {
 	s.ln("import (")
 	for _, j := range deps {
 		dep := m.Decls[j]
-		if dep.AliasImport {
-			s.ln("\t%s %q", dep.Name, dep.Path)
+		if dep.AliasImport || dep.Qual != dep.Name {
+			s.ln("\t%s %q", dep.Qual, dep.Path)
 		} else {
 			s.ln("\t%q", dep.Path)
 		}
@@ -354,7 +418,7 @@ func renderDecl(d drw, w *World, m *Meta, pd *PkgDecl) File {
 	for _, td := range pd.Types {
 		for _, l := range td.Impl {
 			for _, j := range pd.Imports {
-				if strings.Contains(l, " "+m.Decls[j].Name+".") || strings.Contains(l, "&"+m.Decls[j].Name+".") {
+				if strings.Contains(l, " "+m.Decls[j].Qual+".") || strings.Contains(l, "&"+m.Decls[j].Qual+".") {
 					if !contains(need, j) {
 						need = append(need, j)
 					}
@@ -365,7 +429,7 @@ func renderDecl(d drw, w *World, m *Meta, pd *PkgDecl) File {
 	importLines(s, m, need)
 	for _, j := range need {
 		// keep the import used even if only a comment refers to it
-		s.ln("var _ = %s.%s", m.Decls[j].Name, m.Decls[j].AnchorName())
+		s.ln("var _ = %s.%s", m.Decls[j].Qual, m.Decls[j].AnchorName())
 	}
 	s.ln("")
 	s.ln("// %s keeps imports of this package used.", pd.AnchorName())
@@ -404,6 +468,14 @@ func renderDecl(d drw, w *World, m *Meta, pd *PkgDecl) File {
 		s.ln("type I%s interface {", td.Name)
 		s.ln("\tPM() int")
 		s.ln("\tVM() int")
+		s.ln("}")
+		s.ln("")
+		s.ln("// J%s asks for more than %s has.", td.Name, td.Name)
+		s.ln("type J%s interface {", td.Name)
+		s.ln("\tPM() int")
+		s.ln("\tZeta%s(a int, b string) error", pd.Qual)
+		s.ln("\tAlpha(xs ...int) (*%s, error)", td.Name)
+		s.ln("\tMid%d() map[string][]int", pd.Index)
 		s.ln("}")
 		s.ln("")
 		if td.NewTest {
@@ -446,8 +518,8 @@ func renderDecl(d drw, w *World, m *Meta, pd *PkgDecl) File {
 	s.ln("")
 	for _, r := range pd.Reexports {
 		dep := m.Decls[r.Dep]
-		s.ln("// GetX%s hands out a type of %s.", r.Type, dep.Path)
-		s.ln("func GetX%s() *%s.%s { return %s.Get%s() }", r.Type, dep.Name, r.Type, dep.Name, r.Type)
+		s.ln("// %s hands out a type of %s.", r.Fn, dep.Path)
+		s.ln("func %s() *%s.%s { return %s.Get%s() }", r.Fn, dep.Qual, r.Type, dep.Qual, r.Type)
 		s.ln("")
 	}
 	return File{Name: "decl.go", Src: s.b.String()}
@@ -504,7 +576,7 @@ func renderUses(d drw, w *World, m *Meta, pd *PkgDecl, fileName string, nfuncs i
 	s.ln("")
 	importLines(s, m, pd.Imports)
 	for _, j := range pd.Imports {
-		s.ln("func anchor%s%s() int { return %s.%s() }", strings.TrimSuffix(strings.ReplaceAll(fileName, ".", "_"), "_go"), m.Decls[j].Name, m.Decls[j].Name, m.Decls[j].AnchorName())
+		s.ln("func anchor%s%s() int { return %s.%s() }", strings.TrimSuffix(strings.ReplaceAll(fileName, ".", "_"), "_go"), m.Decls[j].Qual, m.Decls[j].Qual, m.Decls[j].AnchorName())
 	}
 	s.ln("")
 	targets := append([]int(nil), pd.Imports...)
@@ -515,7 +587,7 @@ func renderUses(d drw, w *World, m *Meta, pd *PkgDecl, fileName string, nfuncs i
 	fn := 0
 	for _, j := range targets {
 		dep := m.Decls[j]
-		qual := dep.Name + "."
+		qual := dep.Qual + "."
 		if j == pd.Index {
 			qual = ""
 		}
@@ -557,13 +629,52 @@ func renderUses(d drw, w *World, m *Meta, pd *PkgDecl, fileName string, nfuncs i
 			// indirect shape: a type of a package this one may not import, reached through dep
 			if j != pd.Index && len(dep.Reexports) > 0 && d.chance(1, 2) {
 				r := dep.Reexports[d.Draw(len(dep.Reexports))]
-				line := s.ln("\t%sGetX%s().A = 11", qual, r.Type)
-				m.Uses = append(m.Uses, UseSite{ID: len(m.Uses), Pkg: pd.Index, File: fileName, Line: line, Dep: r.Dep, Shape: "indirect-assign", Text: "Q.GetX" + r.Type + "().A = 11", Type: r.Type})
-				line = s.ln("\t_ = %sGetX%s().PM()", qual, r.Type)
-				m.Uses = append(m.Uses, UseSite{ID: len(m.Uses), Pkg: pd.Index, File: fileName, Line: line, Dep: r.Dep, Shape: "indirect-call", Text: "_ = Q.GetX" + r.Type + "().PM()", Type: r.Type})
+				line := s.ln("\t%s%s().A = 11", qual, r.Fn)
+				m.Uses = append(m.Uses, UseSite{ID: len(m.Uses), Pkg: pd.Index, File: fileName, Line: line, Dep: r.Dep, Shape: "indirect-assign", Text: "Q." + r.Fn + "().A = 11", Type: r.Type})
+				line = s.ln("\t_ = %s%s().PM()", qual, r.Fn)
+				m.Uses = append(m.Uses, UseSite{ID: len(m.Uses), Pkg: pd.Index, File: fileName, Line: line, Dep: r.Dep, Shape: "indirect-call", Text: "_ = Q." + r.Fn + "().PM()", Type: r.Type})
 			}
 			s.ln("}")
 			s.ln("")
+		}
+		// a function of THIS package that carries the name of a constructor of an
+		// imported type: gogreement exempts by function name, so what it reports in
+		// there depends on the imported constructor list arriving intact
+		if j != pd.Index && fileName == "use.go" && d.chance(1, 3) {
+			td := dep.Types[d.Draw(len(dep.Types))]
+			name := "New" + td.Name
+			if len(td.CtorNames) > 0 {
+				name = td.CtorNames[d.Draw(len(td.CtorNames))]
+			}
+			own := false
+			for _, t := range pd.Types {
+				if t.Name == td.Name {
+					own = true // this package declares the same names itself
+				}
+			}
+			if !own && !ctorFnTaken[pd.Index][name] {
+				if ctorFnTaken[pd.Index] == nil {
+					ctorFnTaken[pd.Index] = map[string]bool{}
+				}
+				ctorFnTaken[pd.Index][name] = true
+				s.ln("func %s() {", name)
+				s.ln("\tx := %sGet%s()", qual, td.Name)
+				s.ln("\t_ = x")
+				for _, shn := range []string{"assign", "incdec", "index-map", "lit", "new", "var"} {
+					if !d.chance(2, 3) {
+						continue
+					}
+					sh := shapeByName(shn)
+					for li, l := range sh.lines {
+						line := s.ln("\t%s", expand(l, qual, td.Name, dep.FuncName()))
+						if li == 0 {
+							m.Uses = append(m.Uses, UseSite{ID: len(m.Uses), Pkg: pd.Index, File: fileName, Line: line, Dep: j, Shape: "ctorfn-" + sh.name, Text: l, Type: td.Name})
+						}
+					}
+				}
+				s.ln("}")
+				s.ln("")
+			}
 		}
 		// signature and field uses of a type of dep
 		if d.chance(1, 2) {
